@@ -110,7 +110,7 @@ func c10Distinct(n int) []int {
 }
 
 func runC10(c *gen.Ctx) error {
-	reps := 2
+	reps := 4
 	workers := 8
 	if c.Thorough() {
 		reps = 12
